@@ -2,6 +2,7 @@ package refstore
 
 import (
 	"context"
+	"strings"
 	"sync"
 
 	"github.com/zitadel/oidc/v3/pkg/oidc"
@@ -123,5 +124,28 @@ func (s *Store) extAfterSigningKey() {
 	if r.left == 0 {
 		rotations.Delete(s)
 		r.rotate()
+	}
+}
+
+// ---- C06: custom claims in the userinfo (and so in ID tokens). Off by default;
+// EnableCustomUserinfoClaims switches it on for one Store: every scope
+// "custom:<n>" that reaches setUserinfo yields the userinfo claim <n> =
+// CustomUserinfoValue(userID) (UserInfo.AppendClaims), the way
+// GetPrivateClaimsFromScopes answers it with a private claim for JWT access
+// tokens. <n> is whatever follows the prefix - claim names are the storage's.
+var customUserinfo sync.Map // *Store -> bool
+
+func (s *Store) EnableCustomUserinfoClaims() { customUserinfo.Store(s, true) }
+
+func CustomUserinfoValue(userID string) string { return "u-" + userID }
+
+func (s *Store) extUserinfoCustom(ui *oidc.UserInfo, userID string, scopes []string) {
+	if _, on := customUserinfo.Load(s); !on {
+		return
+	}
+	for _, sc := range scopes {
+		if n, ok := strings.CutPrefix(sc, "custom:"); ok {
+			ui.AppendClaims(n, CustomUserinfoValue(userID))
+		}
 	}
 }
